@@ -72,6 +72,45 @@ def rule_fq2_sqrt(fx, rep):
                 if cv == M.F1(-1):
                     fr.storev(t['dest'], ('bool', (nm, a, 'minus_one', t['span'])))
                     return True
+        # coefficient-level code on values tracked as whole Fq2 elements (see proj_hook below): v.c1 == 0 says v lies in
+        # Fq; under that, v.c0 == -1 says v = -1; Fq2 { c0: -v.c1, c1: v.c0 } is u * v; v.c0 += 1 is v + 1
+        if c.get('trait') == 'ff::Field' and nm == 'is_zero' and len(t['args']) == 1 and (c.get('self_ty') or '').endswith('fq::Fq'):
+            cv = fr.deref_operand(t['args'][0])
+            if isinstance(cv, tuple) and len(cv) == 3 and cv[0] == 'coef' and cv[1] != Lin.atom('a') and cv[2] == 1:
+                fr.storev(t['dest'], ('bool', ('in-fq', cv[1], t['span'])))
+                return True
+        if c.get('trait') == 'std::cmp::PartialEq' and nm in ('eq', 'ne') and len(t['args']) == 2 and (c.get('self_ty') or '').endswith('fq::Fq'):
+            xs = [fr.deref_operand(a_) for a_ in t['args']]
+            for x_, y_ in ((xs[0], xs[1]), (xs[1], xs[0])):
+                if isinstance(x_, tuple) and len(x_) == 3 and x_[0] == 'coef' and x_[2] == 0:
+                    yl = I._as_lin(y_)
+                    is_m1 = False
+                    if isinstance(yl, Lin) and len(yl.t) == 1 and list(yl.t.values()) == [1] and list(yl.t)[0] in exp.CONST_ATOMS:
+                        try:
+                            is_m1 = C.dec_field_any(exp.CONST_ATOMS[list(yl.t)[0]]) == M.F1(-1)
+                        except Exception:
+                            is_m1 = False
+                    in_fq = any(isinstance(l_[0], tuple) and l_[0] and l_[0][0] == 'in-fq' and l_[0][1] == x_[1] and l_[1] != 0 for l_ in pth.labels)
+                    if is_m1 and in_fq:
+                        fr.storev(t['dest'], ('bool', (nm, x_[1], 'minus_one', t['span'])))
+                        return True
+        if c.get('trait') == 'ff::Field' and nm == 'negate' and len(t['args']) == 1:
+            cv = fr.deref_operand(t['args'][0])
+            if isinstance(cv, tuple) and len(cv) == 3 and cv[0] == 'coef':
+                fr.store_through(t['args'][0], ('negcoef', cv[1], cv[2]))
+                return True
+        if c.get('trait') == 'ff::Field' and nm == 'add_assign' and len(t['args']) == 2 and (c.get('self_ty') or '').endswith('fq::Fq'):
+            pl = fr.ref_place_of(t['args'][0])
+            one_ = fr.deref_operand(t['args'][1])
+            if isinstance(pl, dict) and isinstance(one_, Lin) and not one_.t:
+                root, proj = fr.root_of(pl)
+                proj = [e for e in proj if e[0] != 'deref']
+                base = fr.store.get(root)
+                if isinstance(base, Lin) and len(proj) == 1 and proj[0][0] == 'f' and proj[0][1] == 0:
+                    nmx = 'one_plus(%s)' % sorted(base.t.items())
+                    specials[nmx] = base
+                    fr.store[root] = Lin.atom(nmx)
+                    return True
         if c.get('trait') == 'ff::Field' and nm == 'is_zero' and len(t['args']) == 1 and (c.get('self_ty') or '').endswith('fq::Fq'):
             # a zero test of one coefficient of the input element
             pl = fr.ref_place_of(t['args'][0])
@@ -92,6 +131,7 @@ def rule_fq2_sqrt(fx, rep):
                 return True
         return False
     I = exp.Interp(fx, 'mul', frob_q=q, extra_transfer=tr)
+    I.proj_hook = lambda v_, i_: ('coef', v_, i_) if isinstance(v_, Lin) and i_ in (0, 1) else None
     try:
         res = I.run(path, [('byref', Lin.atom('a'))])
     except (exp.NotDerivable, exp.Budget) as e:
@@ -130,7 +170,38 @@ def rule_fq2_sqrt(fx, rep):
             np_.events = list(pth.events)
             pth = np_
         res2.append((pth, ret, o_))
-    for pth, ret, _ in res2:
+    res3 = []
+    for pth, ret, o_ in res2:
+        # `v.c1.is_zero() && v.c0 == -1` is the test v == -1: not in Fq => not -1; in Fq => whatever the second test said
+        labels2, pending = [], None
+        for l in pth.labels:
+            nm_, tk_, x_ = lab_name(l)
+            if nm_ == 'in-fq':
+                if tk_:
+                    pending = x_[1]
+                else:
+                    labels2.append((('eq', x_[1], 'minus_one', x_[2]), 0))
+                continue
+            if pending is not None and nm_ in ('eq', 'ne') and len(x_) >= 3 and x_[2] == 'minus_one' and (x_[1] == pending or x_[1] == ('coef', pending, 0)):
+                labels2.append(((x_[0], pending, 'minus_one') + tuple(x_[3:]), 1 if tk_ else 0))
+                pending = None
+                continue
+            labels2.append(l)
+        if pending is not None:
+            rep.fail('GUARD', 'Fq2::sqrt:structure', 'a path establishes that %r lies in Fq without using it' % (pending,), where, construct=path)
+            continue
+        if len(labels2) != len(pth.labels) or any(a_ is not b_ for a_, b_ in zip(labels2, pth.labels)):
+            np_ = exp.Path()
+            np_.labels = labels2
+            np_.events = list(pth.events)
+            pth = np_
+        # Some(Fq2 { c0: -v.c1, c1: v.c0 }) is Some(u * v)
+        if isinstance(ret, Opt) and ret.tag == 'some' and isinstance(ret.payload, Agg) and len(ret.payload.items) == 2:
+            p0, p1 = ret.payload.items
+            if isinstance(p0, tuple) and p0 and p0[0] == 'negcoef' and p0[2] == 1 and isinstance(p1, tuple) and p1 and p1[0] == 'coef' and p1[2] == 0 and p0[1] == p1[1]:
+                ret = Opt('some', p0[1].add(Lin.atom('i')), ret.label)
+        res3.append((pth, ret, o_))
+    for pth, ret, _ in res3:
         labs = [lab_name(l) for l in pth.labels]
         desc = [(nm, tk) for nm, tk, _ in labs]
         if desc and desc[0][0] == 'is_zero' and labs[0][2][1] != Lin.atom('a'):
